@@ -459,6 +459,22 @@ def consumeResults {α : Type} (skipBefore : Nat → Bool) : Nat → Nat → Lis
       | [] => []
       | r :: rest => (i, r) :: consumeResults skipBefore (i + 1) n rest
 
+/-- one import attempt of a header (the header side of `InsertChain` / `InsertHeaderChain` for a single item): verified against
+    the chain as it is now; stored iff accepted.  The chain reader is the ONLY state an attempt reads or writes — in particular
+    there is no memory of earlier rejected attempts. -/
+def offer (env : Env) (chain : Chain) (h : Header) (doSeal : Bool) : Chain × Option VErr :=
+  match verifyHeaderEntry env chain h doSeal with
+  | none => (chain.insert h, none)
+  | some e => (chain, some e)
+
+/-- a history of import attempts, in order; returns the chain afterwards and the verdicts. -/
+def offerAll (env : Env) (doSeal : Bool) : Chain → List Header → Chain × List (Option VErr)
+  | chain, [] => (chain, [])
+  | chain, h :: rest =>
+    let r := offer env chain h doSeal
+    let rr := offerAll env doSeal r.1 rest
+    (rr.1, r.2 :: rr.2)
+
 /-! ## VerifyUncles -/
 
 /-- mainnet history: duplicate-uncle exemptions `(block hash, uncle number)` for blocks with `number ≤ 15000`. -/
